@@ -170,4 +170,33 @@ Section P5.
       rewrite G1, TF. split; [exact Cf|]. split; [exact Cr|].
       unfold getst, publish; cbn. now rewrite nth_middle.
   Qed.
+
+  (* every outcome a call records is an allowed one *)
+  Lemma hist_step s t th g' th' :
+    Full w r s -> Inv2 orig s -> nth_error (ths s) t = Some th -> step_thread (sh s) t th = Some (g', th') ->
+    t_rot th = false ->
+    (t_prog th' = t_prog th /\ t_outs th' = t_outs th /\ t_rot th' = false) \/
+    (exists o res, t_prog th = o :: t_prog th' /\ t_outs th' = t_outs th ++ [res] /\ t_rot th' = false /\
+                   allowed o res = true).
+  Proof.
+    intros F0 J E F Rf. pose proof F0 as [SA I].
+    pose proof (no_panic w r _ _ _ _ _ SA I E F) as NP. pose proof (i_wf _ _ _ I _ _ E) as WF.
+    pose proof (j_thr _ _ J _ _ E) as TJ. unfold th_facts2 in TJ.
+    unfold step_thread in F; crack F;
+      try (destruct (pm3_tx _ _ _ _) eqn:?); inversion F; subst g' th'; clear F.
+    all: try (exfalso; apply NP; reflexivity).
+    all: try (left; cbn; auto; fail).
+    all: repeat match goal with H : t_pc _ = _ |- _ => rewrite H in TJ end.
+    all: try (match goal with |- context [continue _ _ ?k0] => destruct k0 end; cbn [continue]; try (left; cbn; auto; fail)).
+    all: right; unfold pc_ok in WF; rewrite Rf in WF;
+      repeat match goal with H : t_pc _ = _ |- _ => rewrite H in WF end;
+      unfold cur_op in *; destruct (t_prog th) as [|oo p] eqn:Pq; cbn [hd_error] in *; try discriminate.
+    all: match goal with |- context [finish _ ?res] => exists oo, res end; cbn [finish t_prog t_outs t_rot]; rewrite ?Pq; cbn [tl].
+    all: split; [reflexivity|]; split; [reflexivity|]; split; [exact Rf|].
+    all: try (match goal with H : Some _ = Some _ |- _ => inversion H; subst end).
+    all: try reflexivity.
+    all: try (destruct oo; try discriminate; reflexivity).
+    all: assert (Ro : res_ok th r0) by (first [ exact TJ | exact (proj2 TJ) | exact (proj1 (proj2 (proj2 TJ))) ]);
+      unfold res_ok, cur_op in Ro; rewrite Pq in Ro; exact (Ro Rf).
+  Qed.
 End P5.
